@@ -37,7 +37,51 @@ def strip_item(item):
     return {k: v for k, v in item.items() if k != "lines"}
 
 
-def pipe_items(tier, kinds_q, kinds_t=None, k1=True, k1_rules=None, big=True, gen_thorough_kinds=None):
+_focus = None
+
+
+def focus_spec():
+    """specs/focus_lines.json (tools/focus_lines.py): rule id -> its fixture and the lines it reports on there (pinned tree)"""
+    global _focus
+    if _focus is None:
+        import json
+        import os
+
+        p = os.path.join(base.VERIF, "specs", "focus_lines.json")
+        _focus = json.load(open(p)) if os.path.exists(p) else {}
+    return _focus
+
+
+def focus_items(tier, kinds, rules=None):
+    """rule-focused slice F (DESIGN §5): for the fixture of each rule X, one layout deviation on the lines X itself reports on
+    (quick: the first reported line; thorough: the first two, +-1 line), X enabled if it is disabled by default"""
+    from .. import corpus
+
+    maxl, pad = (1, 0) if tier == "quick" else (2, 1)
+    have = set(corpus.seed_ids(("fix",)))
+    out = []
+    for rid in sorted(focus_spec()):
+        v = focus_spec()[rid]
+        if v["seed"] not in have or (rules is not None and rid not in rules):
+            continue
+        cfg = {"rule": {rid: {"disable": False}}} if v["enable"] else None
+        for it in universe.focused([(v["seed"], v["lines"][:maxl])], kinds, pad=pad):
+            if cfg:
+                it["cfg"] = cfg
+                it["cfgname"] = f"{rid}.disable=false"
+                it["id"] += f"%cfg:{rid}.disable=false"
+            it["focus"] = rid
+            out.append(it)
+    return out
+
+
+def all_on_cfg():
+    from . import configs_k1
+
+    return {"rule": {rid: {"disable": False} for rid, v in sorted(configs_k1.inventory().items()) if v["disable"]}}
+
+
+def pipe_items(tier, kinds_q, kinds_t=None, k1=True, k1_rules=None, big=True, gen_thorough_kinds=None, focus=True, all_on=True, focus_extra=(), one_line=False):
     """the shared fix-run universe (DESIGN §5): 0 deviations over all seeds x K0; 1 layout deviation over
     S_q (quick) or all fix/cls/gen seeds (thorough); K1 deviations of each rule on its own fixture."""
     from .. import corpus
@@ -47,16 +91,27 @@ def pipe_items(tier, kinds_q, kinds_t=None, k1=True, k1_rules=None, big=True, ge
         out = universe.zero_dev(corpus.seed_ids(("fix", "cls")) + (corpus.seed_ids(("big",)) if big else [])) + universe.zero_dev(corpus.seed_ids(("gen",)), styles=(None, "jcl"))
     else:
         out = universe.zero_dev(corpus.seed_ids(("fix", "cls", "gen")) + (corpus.seed_ids(("big",)) if big else []))
+    if all_on:
+        # the configuration that switches every optional (disabled by default) rule on: the only one under which rules such as
+        # after_001 / after_002 meet inside one phase-ordered run
+        out += [universe.mk(s, (), None, all_on_cfg(), cfgname="optional_rules.enable_all=true") for s in corpus.seed_ids(("fix", "cls"))]
+    if one_line:
+        # the whole design on one line (every comment-free seed): first-line / last-line / no-line-break corner cases of every rule
+        out += universe.one_dev(corpus.seed_ids(("fix", "cls", "gen")), ("ALLJ",))
     if tier == "quick":
         out += universe.one_dev(corpus.small_slice(max_lines=25), kinds_q)
         if k1:
             out += configs_k1.items_for_own_fixtures(limit_values=2, rules=k1_rules)
+        if focus:
+            out += focus_items(tier, tuple(kinds_q) + tuple(k for k in focus_extra if k not in kinds_q), rules=None if focus is True else focus)
     else:
         kt = kinds_t or kinds_q
         out += universe.one_dev(corpus.small_slice(), kt)
         out += universe.one_dev(corpus.seed_ids(("fix", "cls")), wide_kinds(kinds_q, kt))
         if k1:
             out += configs_k1.items_for_own_fixtures(limit_values=None, rules=k1_rules)
+        if focus:
+            out += focus_items(tier, tuple(kt) + tuple(k for k in focus_extra if k not in kt), rules=None if focus is True else focus)
     return out
 
 
@@ -65,8 +120,8 @@ def wide_kinds(kinds_q, kinds_t):
     return []  # (the per-line operators over every fixture were dropped to keep a thorough run near ten minutes)
 
 
-def bound_text(tier, kinds_q, kinds_t=None):
-    z = "0 deviations: all fix/cls/gen seeds (" + str(len(__import__("vsgmc.corpus", fromlist=["x"]).seed_ids(("fix", "cls", "gen")))) + ") + 23 large examples x {default, jcl, indent_only}" + (" (generated seeds: default and jcl only)" if tier == "quick" else "")
+def bound_text(tier, kinds_q, kinds_t=None, focus_extra=()):
+    z = "every optional rule enabled x all fix/cls seeds; 0 deviations: all fix/cls/gen seeds (" + str(len(__import__("vsgmc.corpus", fromlist=["x"]).seed_ids(("fix", "cls", "gen")))) + ") + 23 large examples x {default, jcl, indent_only}" + (" (generated seeds: default and jcl only)" if tier == "quick" else "")
     if tier == "quick":
         d = "1 layout deviation (" + ",".join(kinds_q) + ") at every applicable position of the small-seed slice S_q (<=25 lines, 176 seeds)"
         k = "1 configuration deviation (documented option values, first 2 per option) of each rule on its own fixture"
@@ -74,10 +129,11 @@ def bound_text(tier, kinds_q, kinds_t=None):
         w = wide_kinds(kinds_q, kinds_t or kinds_q)
         d = ("1 layout deviation: (" + ",".join(kinds_t or kinds_q) + ") at every position of S_q (211 seeds, no length limit)")
         k = "1 configuration deviation (every documented option value) of each rule on its own fixture"
-    return z + "; " + d + "; " + k
+    f = ("rule-focused slice F: the same operators" + (" plus " + ",".join(focus_extra) if focus_extra else "") + " on the line(s) each rule reports on in its own fixture (" + ("first reported line" if tier == "quick" else "first two reported lines +-1") + ", " + str(len(focus_spec())) + " rules)")
+    return z + "; " + d + "; " + f + "; " + k
 
 
-def k2_items(tier, skip=True, indent=True):
+def k2_items(tier, skip=True, indent=True, case=False):
     """K2: single deviations of the top-level configuration keys that steer the pipeline itself: skip_phase (each single phase)
     and the documented indent options of use clauses (docs/configuring_use_clause_indenting.rst), on seeds where they matter"""
     from .. import corpus
@@ -93,5 +149,10 @@ def k2_items(tier, skip=True, indent=True):
         for s in (users[::2] if tier == "quick" else users):
             for opt in ("token_if_no_matching_library_clause", "token_after_library_clause"):
                 for val in ("current", "+2"):
-                    out.append(universe.mk(s, (), None, {"indent": {"tokens": {"use_clause": {"keyword": {opt: val}}}}}, cfgname=f"indent.use_clause.{opt}={val}"))
+                    cfg = {"indent": {"tokens": {"use_clause": {"keyword": {opt: val}}}}}
+                    out.append(universe.mk(s, (), None, cfg, cfgname=f"indent.use_clause.{opt}={val}"))
+                    if case:
+                        # configuration deviation x whole-file case deviation (2 deviations): the indent map is consulted with token
+                        # values as they stand in the input, the case rules run two phases later
+                        out.append(universe.mk(s, (("ALLUP", 0, 0),), None, cfg, cfgname=f"indent.use_clause.{opt}={val}"))
     return out
